@@ -221,4 +221,170 @@ theorem assignAll_order_witness :
     assignAll (5/1000) (1/10) 10 pool1 [⟨2, ⟨3/10, 0⟩⟩, ⟨1, ⟨0, 0⟩⟩] [] = [(2, some 7), (1, some 8)] := by
   decide +kernel
 
+/-! ### E. the keys of the correspondence -/
+
+/-- exactly the keys of the guess and the interface end points of frame 0 get an entry (`assignAll_total` is the
+    direction `←` for the end points) -/
+theorem assignAll_hasKey_iff (s0 cutoff maxcoord : Rat) (pool1 pool0 : List TVert) (guess : StepMap) (k : Id) :
+    (assignAll s0 cutoff maxcoord pool1 pool0 guess).hasKey k = true
+      ↔ (guess.hasKey k = true ∨ k ∈ pool0.map (·.id)) :=
+  C12m.assignAll_hasKey_iff s0 cutoff maxcoord pool1 k pool0 guess
+
+/-- the result is a dictionary: distinct keys (given a guess with distinct keys), even when frame 0 stores the same id
+    twice -/
+theorem assignAll_keys_nodup (s0 cutoff maxcoord : Rat) (pool1 pool0 : List TVert) (guess : StepMap)
+    (hk : (guess.map (·.1)).Nodup) :
+    ((assignAll s0 cutoff maxcoord pool1 pool0 guess).map (·.1)).Nodup :=
+  C12m.assignAll_keys_nodup s0 cutoff maxcoord pool1 pool0 guess hk
+
+theorem createMapping_keys_nodup (s0 cutoff maxDiff : Rat) (pool0 pool1 : List TVert) (guess m : StepMap)
+    (hk : (guess.map (·.1)).Nodup) (h : createMapping s0 cutoff maxDiff pool0 pool1 guess = some m) :
+    (m.map (·.1)).Nodup := by
+  unfold createMapping at h
+  split at h
+  · simp at h
+  · simp only [Option.some.injEq] at h
+    subst h
+    exact assignAll_keys_nodup s0 cutoff _ pool1 pool0 guess hk
+
+/-! ### F. backward, then forward -/
+
+/-- following the correspondence BACKWARD over `n` steps and then forward returns the starting vertex, when every step
+    map exists and has distinct keys (injectivity of the values is not needed in this direction).
+    Guard `n ≤ T` explicit: the walk must not run below frame 0. -/
+theorem roundtrip_back (maps : List (Option StepMap)) (T n : Nat) (p q : Id) (hT : n ≤ T)
+    (hall : ∀ i, T - n ≤ i → i < T → ∃ m, maps.getD i none = some m ∧ (m.map (·.1)).Nodup)
+    (hb : walkBackward maps T n (some q) = .ok (some p)) :
+    walkForward maps (T - n) n (some p) = .ok (some q) :=
+  C12m.roundtrip_back' maps n T p q hT hall hb
+
+theorem getPointIdByMap_roundtrip_back (maps : List (Option StepMap)) (t0 t1 : Nat) (p q : Id) (hlt : t0 < t1)
+    (hall : ∀ i, t0 ≤ i → i < t1 → ∃ m, maps.getD i none = some m ∧ (m.map (·.1)).Nodup)
+    (hb : getPointIdByMap maps q t1 t0 = .ok (some p)) :
+    getPointIdByMap maps p t0 t1 = .ok (some q) := by
+  have hnot : ¬ t1 < t0 := by omega
+  simp only [getPointIdByMap, hnot, if_false] at hb
+  simp only [getPointIdByMap, hlt, if_true]
+  have e : t1 - (t1 - t0) = t0 := by omega
+  have := roundtrip_back maps t1 (t1 - t0) p q (by omega) (by intro i h1 h2; exact hall i (by omega) h2) hb
+  rwa [e] at this
+
+/-- on the maps the code builds: guesses with distinct keys, no DifferentTissueException in the range -/
+theorem mapsOf_roundtrip_back (s0 cutoff maxDiff : Rat) (pools : List (List TVert)) (guesses : List StepMap)
+    (T n : Nat) (p q : Id) (hT : n ≤ T)
+    (hg : ∀ i, ((guesses.getD i []).map (·.1)).Nodup)
+    (hno : ∀ i, T - n ≤ i → i < T → (mapsOf s0 cutoff maxDiff pools guesses).getD i none ≠ none)
+    (hb : walkBackward (mapsOf s0 cutoff maxDiff pools guesses) T n (some q) = .ok (some p)) :
+    walkForward (mapsOf s0 cutoff maxDiff pools guesses) (T - n) n (some p) = .ok (some q) := by
+  refine roundtrip_back _ T n p q hT ?_ hb
+  intro i h1 h2
+  cases hm : (mapsOf s0 cutoff maxDiff pools guesses).getD i none with
+  | none => exact absurd hm (hno i h1 h2)
+  | some m =>
+    exact ⟨m, rfl, createMapping_keys_nodup _ _ _ _ _ _ m (hg i) (C12m.mapsOf_getD _ _ _ _ _ _ _ hm)⟩
+
+example :
+    let maps := mapsOf (5/1000) (1/10) (1/10) (poolsOf exFrames12 exJunctions) []
+    (2 ≤ 2) ∧ (∀ i, 2 - 2 ≤ i → i < 2 → maps.getD i none ≠ none) ∧
+    walkBackward maps 2 2 (some 11) = .ok (some 3) ∧ walkForward maps (2 - 2) 2 (some 3) = .ok (some 11) := by
+  refine ⟨Nat.le_refl _, ?_, by decide +kernel, by decide +kernel⟩
+  intro i _ h2
+  have : i = 0 ∨ i = 1 := by omega
+  rcases this with rfl | rfl <;> decide +kernel
+
+/-- distinct keys are needed in this direction (an association list with a repeated key is not a Python dict: the
+    inverted dictionary remembers both entries, the look-up sees the first only) -/
+theorem roundtrip_back_dupkey_witness :
+    let maps : List (Option StepMap) := [some [(1, some 9), (1, some 8)]]
+    getPointIdByMap maps 8 1 0 = .ok (some 1) ∧ getPointIdByMap maps 1 0 1 = .ok (some 9) := by
+  decide +kernel
+
+/-! ### G. small motions: the whole dictionary, the whole series -/
+
+/-- under the premises of `assignAll_small_motion` (and distinct ids in frame 0) the WHOLE step map is known, order
+    included: one entry `id ↦ successor` per end point of frame 0, in the storage order of frame 0 -/
+theorem assignAll_small_motion_list (s0 cutoff maxcoord : Rat) (pool1 pool0 : List TVert) (succ : Id → Id)
+    (hnd0 : (pool0.map (·.id)).Nodup) (hnd1 : (pool1.map (·.id)).Nodup)
+    (hinj : ∀ a ∈ pool0, ∀ b ∈ pool0, succ a.id = succ b.id → a.id = b.id)
+    (hsucc : ∀ a ∈ pool0, ∃ w ∈ pool1, w.id = succ a.id ∧
+        (∀ u ∈ pool1, u.id ≠ w.id → distSq w.p a.p < distSq u.p a.p) ∧
+        (∃ s ∈ spreads s0 cutoff 64, distSq w.p a.p < (s * maxcoord) * (s * maxcoord))) :
+    assignAll s0 cutoff maxcoord pool1 pool0 [] = pool0.map (fun a => (a.id, some (succ a.id))) := by
+  have := C12m.assignAll_small_list s0 cutoff maxcoord pool1 pool0 succ hnd1 hinj hsucc pool0 []
+    (fun a h => h) hnd0 (by simp) (by intro a _; rfl)
+  simpa using this
+
+/-- the premises of `assignAll_small_motion` for one step of a series, with the extent the code computes, plus
+    "the bounding box keeps its shape" -/
+def SmallMotionStep (s0 cutoff maxDiff : Rat) (pool0 pool1 : List TVert) (succ : Id → Id) : Prop :=
+  tooDifferent maxDiff pool0 pool1 = false ∧ (pool1.map (·.id)).Nodup ∧
+  (∀ a ∈ pool0, ∀ b ∈ pool0, succ a.id = succ b.id → a.id = b.id) ∧
+  (∀ a ∈ pool0, ∃ w ∈ pool1, w.id = succ a.id ∧
+      (∀ u ∈ pool1, u.id ≠ w.id → distSq w.p a.p < distSq u.p a.p) ∧
+      (∃ s ∈ spreads s0 cutoff 64,
+        distSq w.p a.p < (s * maxCoord pool0 pool1) * (s * maxCoord pool0 pool1)))
+
+/-- the successor of a junction `n` frames later -/
+def iterSucc (succ : Nat → Id → Id) : Nat → Nat → Id → Id
+  | _, 0, x => x
+  | t, n + 1, x => iterSucc succ (t + 1) n (succ t x)
+
+theorem mapsOf_small_step (s0 cutoff maxDiff : Rat) (pools : List (List TVert)) (succ : Nat → Id → Id)
+    (hstep : ∀ t, t + 1 < pools.length →
+      SmallMotionStep s0 cutoff maxDiff (pools.getD t []) (pools.getD (t + 1) []) (succ t))
+    (t : Nat) (ht : t + 1 < pools.length) :
+    ∃ m, (mapsOf s0 cutoff maxDiff pools []).getD t none = some m ∧ (StepMap.someValues m).Nodup ∧
+      ∀ a ∈ pools.getD t [], m.get? a.id = some (some (succ t a.id)) := by
+  obtain ⟨h1, h2, h3, h4⟩ := hstep t ht
+  refine ⟨assignAll s0 cutoff (maxCoord (pools.getD t []) (pools.getD (t + 1) [])) (pools.getD (t + 1) [])
+    (pools.getD t []) [], ?_, ?_, ?_⟩
+  · rw [C12m.mapsOf_getD_eq _ _ _ _ _ _ (by omega)]
+    unfold createMapping
+    rw [h1, Bool.and_false]
+    rfl
+  · exact C12.assignAll_injective' _ _ _ _ _ _ (by simp [StepMap.values])
+  · exact C12.assignAll_small_motion' _ _ _ _ _ _ h2 h3 h4
+
+theorem series_small_motion (s0 cutoff maxDiff : Rat) (pools : List (List TVert)) (succ : Nat → Id → Id)
+    (hstep : ∀ t, t + 1 < pools.length →
+      SmallMotionStep s0 cutoff maxDiff (pools.getD t []) (pools.getD (t + 1) []) (succ t)) :
+    ∀ (n t : Nat) (a : TVert), t + n < pools.length → a ∈ pools.getD t [] →
+      walkForward (mapsOf s0 cutoff maxDiff pools []) t n (some a.id) = .ok (some (iterSucc succ t n a.id)) := by
+  intro n
+  induction n with
+  | zero => intro t a _ _; rfl
+  | succ n ih =>
+    intro t a ht ha
+    obtain ⟨m, hm, _, hget⟩ := mapsOf_small_step s0 cutoff maxDiff pools succ hstep t (by omega)
+    rw [C12.walkForward_succ _ t n m a.id hm, hget a ha]
+    obtain ⟨_, _, _, h4⟩ := hstep t (by omega)
+    obtain ⟨w, hw, hwid, _⟩ := h4 a ha
+    have := ih (t + 1) w (by omega) hw
+    rw [hwid] at this
+    exact this
+
+theorem series_small_motion_roundtrip (s0 cutoff maxDiff : Rat) (pools : List (List TVert)) (succ : Nat → Id → Id)
+    (hstep : ∀ t, t + 1 < pools.length →
+      SmallMotionStep s0 cutoff maxDiff (pools.getD t []) (pools.getD (t + 1) []) (succ t))
+    (n t : Nat) (a : TVert) (ht : t + n < pools.length) (ha : a ∈ pools.getD t []) :
+    walkBackward (mapsOf s0 cutoff maxDiff pools []) (t + n) n (some (iterSucc succ t n a.id)) = .ok (some a.id) := by
+  refine C12.roundtrip' _ n t a.id _ ?_ (series_small_motion s0 cutoff maxDiff pools succ hstep n t a ht ha)
+  intro i _ h2
+  obtain ⟨m, hm, hinj, _⟩ := mapsOf_small_step s0 cutoff maxDiff pools succ hstep i (by omega)
+  exact ⟨m, hm, hinj⟩
+
+def exPools12 : List (List TVert) :=
+  [[⟨1, ⟨0, 0⟩⟩, ⟨2, ⟨10, 0⟩⟩, ⟨3, ⟨0, 10⟩⟩], [⟨5, ⟨1/10, 0⟩⟩, ⟨6, ⟨10, 1/10⟩⟩, ⟨7, ⟨1/10, 10⟩⟩],
+   [⟨9, ⟨2/10, 0⟩⟩, ⟨10, ⟨10, 2/10⟩⟩, ⟨11, ⟨1/10, 51/5⟩⟩]]
+
+/-- the premises of the series theorems hold on a three-frame series (code constants; successor = id + 4) -/
+example : ∀ t, t + 1 < exPools12.length →
+    SmallMotionStep (5/1000) (1/10) (1/10) (exPools12.getD t []) (exPools12.getD (t + 1) []) (fun i => i + 4) := by
+  intro t ht
+  have : t = 0 ∨ t = 1 := by simp only [exPools12, List.length_cons, List.length_nil] at ht; omega
+  rcases this with rfl | rfl <;> (unfold SmallMotionStep; decide +kernel)
+
+example : walkForward (mapsOf (5/1000) (1/10) (1/10) exPools12 []) 0 2 (some 3) = .ok (some 11) ∧
+    iterSucc (fun _ i => i + 4) 0 2 3 = 11 := by decide +kernel
+
 end Forsys
